@@ -146,7 +146,11 @@ type target struct {
 	from, to string            // segment: source prefix of the first statement / of the first statement NOT included ("" = whole body)
 	oracles  map[string]string // source text of a call -> parameter name (the call's value is an input)
 	liveOut  []string          // segment: variables handed on at fall-through
-	doc      string
+	skip     []string          // statements (by source prefix) left out: they do not change any translated value
+	free     map[string][]string // callee text -> names of the fields of a struct-literal argument, in the order they are passed:
+	// a call `return callee(args)` is left uninterpreted — the definition is polymorphic in a result type `R`, takes the callee
+	// as a function into `R` and an injection `ret` of ordinary results into `R`
+	doc string
 }
 
 var targets = []target{
@@ -159,6 +163,7 @@ var targets = []target{
 	{pkg: "gws", fn: "frameHeader.GetLengthCode", lean: "frameHeader_GetLengthCode"},
 	{pkg: "gws", fn: "Opcode.isDataFrame", lean: "Opcode_isDataFrame"},
 	{pkg: "gws", fn: "Conn.checkMask", lean: "Conn_checkMask"},
+	{pkg: "gws", fn: "frameHeader.Parse", lean: "frameHeader_Parse"},
 	{pkg: "gws", fn: "frameHeader.SetLength", lean: "frameHeader_SetLength"},
 	{pkg: "gws", fn: "frameHeader.GenerateHeader", lean: "frameHeader_GenerateHeader",
 		oracles: map[string]string{"internal.AlphabetNumeric.Uint32()": "maskNum"}},
@@ -166,13 +171,48 @@ var targets = []target{
 		from: "if contentLength < 0", to: "var fin =", liveOut: []string{"opcode", "maskEnabled", "compressed"},
 		oracles: map[string]string{"c.readControl()": "readControlResult"},
 		doc:     "the header checks of readMessage between Parse and the payload read; the outcome of readControl is an input"},
+	{pkg: "gws", fn: "continuationFrame.reset", lean: "continuationFrame_reset"},
+	{pkg: "gws", fn: "Conn.readMessage", lean: "Conn_readMessage_afterPayload",
+		from: "if opcode != OpcodeContinuation && c.continuationFrame.initialized", to: "",
+		skip: []string{"if !compressed { closer.Data = nil }"},
+		free: map[string][]string{"c.emitMessage": {"Opcode", "Data", "compressed"}},
+		doc:  "readMessage after the payload has been read and unmasked into buf/p: the fragmentation state machine; emitMessage is left uninterpreted (its arguments are what matters), `closer` (buffer recycling) is left out"},
 	{pkg: "gws", fn: "Conn.readControl", lean: "Conn_readControl_guards",
 		from: "if !c.fh.GetFIN()", to: "var payload []byte", liveOut: []string{"n"},
 		doc: "the two guards of readControl that precede the payload read"},
-	{pkg: "gws", fn: "Conn.emitClose", lean: "Conn_emitClose_classify",
-		from: "realCode = binary.BigEndian", to: "if !internal.CheckEncoding", liveOut: []string{"responseCode", "realCode"},
-		oracles: map[string]string{"binary.BigEndian.Uint16(b[0:])": "wireCode"},
-		doc:     "the status classification of emitClose for a body of two or more bytes; the 16-bit status read from the body is an input"},
+	{pkg: "gws", fn: "Conn.emitClose", lean: "Conn_emitClose_body",
+		from: "var responseCode =", to: "if atomic.CompareAndSwapUint32", liveOut: []string{"responseCode", "realCode"},
+		doc: "everything emitClose computes from the body of a received Close frame (status reported, reason left in buf, status answered) before the closed-flag CAS"},
+	{pkg: "gws", fn: "Conn.closeViaWrite", lean: "Conn_closeViaWrite_split",
+		from: "var code =", to: "return c.WriteClose", liveOut: []string{"code", "body"},
+		doc: "how a Close payload given to a generic write API is split into status and reason"},
+	{pkg: "gws", fn: "Conn.WriteClose", lean: "Conn_WriteClose_body",
+		from: "var buf = binaryPool.Get", to: "err := c.writeClose", liveOut: []string{"code", "buf"},
+		doc: "the Close body a locally requested close builds (status raised to at least 1000, then the reason)"},
+	{pkg: "gws", fn: "Conn.writeClose", lean: "Conn_writeClose_cut",
+		from: "if len(reason) >", to: "c.ev.Store", liveOut: []string{"reason"},
+		doc: "the cut of a Close body to the control-frame limit"},
+	{pkg: "gws", fn: "Conn.genFrame", lean: "Conn_genFrame",
+		free: map[string][]string{"c.compressData": nil},
+		oracles: map[string]string{"internal.AlphabetNumeric.Uint32()": "maskNum"},
+		doc: "genFrame for a payload given as its bytes: the checks, the padded buffer, header back-fill and masking of an uncompressed frame; compressData is left uninterpreted"},
+	{pkg: "gws", fn: "PermessageDeflate.setThreshold", lean: "PermessageDeflate_setThreshold"},
+	{pkg: "gws", fn: "initServerOption", lean: "initServerOption_limits",
+		from: "if c.ReadMaxPayloadSize <= 0", to: "if c.Authorize == nil",
+		doc: "the defaults initServerOption gives to the size limits and the parallelism"},
+	{pkg: "gws", fn: "initServerOption", lean: "initServerOption_pd",
+		from: "if c.PermessageDeflate.Enabled {", to: "c.deleteProtectedHeaders()",
+		oracles: map[string]string{"internal.ToBinaryNumber(c.PermessageDeflate.PoolSize)": "poolSizePow2"},
+		doc:     "the normalisation of the server's compression settings (the power-of-two rounding of the pool size is an input)"},
+	{pkg: "gws", fn: "initClientOption", lean: "initClientOption_limits",
+		from: "if c.ReadMaxPayloadSize <= 0", to: "if c.HandshakeTimeout <= 0",
+		doc: "the defaults initClientOption gives to the size limits and the parallelism"},
+	{pkg: "gws", fn: "initClientOption", lean: "initClientOption_pd",
+		from: "if c.PermessageDeflate.Enabled {", to: "return c",
+		doc: "the normalisation of the client's compression settings"},
+	{pkg: "internal", fn: "CheckEncoding", lean: "internal_CheckEncoding"},
+	{pkg: "internal", fn: "StatusCode.Bytes", lean: "StatusCode_Bytes"},
+	{pkg: "internal", fn: "StatusCode.Uint16", lean: "StatusCode_Uint16"},
 	{pkg: "gws", fn: "slideWindow.Write", lean: "slideWindow_Write"},
 	{pkg: "internal", fn: "binaryCeil", lean: "internal_binaryCeil"},
 	{pkg: "internal", fn: "Max", lean: "internal_Max"},
@@ -200,6 +240,7 @@ type result struct {
 	retType    string
 	body       string
 	hasRecvVal bool
+	poly       bool
 }
 
 // ---------------------------------------------------------------------------------------------------
@@ -235,9 +276,28 @@ func (tr *translator) leanType(t types.Type) (string, bool) {
 		if t.String() == "error" {
 			return "(Option GoErr)", true
 		}
+		// an io.Reader is the bytes it will deliver (consumed by ReadN); a Payload is its concatenated bytes
+		if t.String() == "io.Reader" || strings.HasSuffix(t.String(), "internal.Payload") {
+			return "(List UInt8)", true
+		}
+	case *types.Struct:
+		if isBuffer(t) {
+			return "(List UInt8)", true
+		}
 	}
 	return "", false
 }
+
+// *bytes.Buffer / bytes.Buffer: a value holding the unread bytes
+func isBuffer(t types.Type) bool {
+	if pt, ok := t.(*types.Pointer); ok {
+		t = pt.Elem()
+	}
+	n, ok := t.(*types.Named)
+	return ok && n.Obj().Name() == "Buffer" && n.Obj().Pkg() != nil && n.Obj().Pkg().Path() == "bytes"
+}
+
+func isPayload(t types.Type) bool { return strings.HasSuffix(t.String(), "internal.Payload") }
 
 func isStatusCode(t types.Type) bool {
 	n, ok := t.(*types.Named)
@@ -262,7 +322,14 @@ type fn struct {
 	pre      []string // pending `let` lines hoisted out of the expression being translated
 	tmp      int
 	segment  bool
+	noReturn bool
 	locals   map[string]bool
+	structTy map[string]string
+	freeSig  map[string][]string // free callee parameter -> argument types
+	freeOrd  []string
+	structs  map[string][]string // local struct values (`msg := &Message{…}`): variable -> field names captured as msg_Field
+	streams  map[string]bool   // Lean names of io.Reader values consumed by ReadN
+	alias    map[string]string // Go variable that names the contents of a buffer variable (`contents := buf.Bytes()`) -> that variable
 }
 
 func (f *fn) src(n ast.Node) string {
@@ -310,7 +377,7 @@ func (f *fn) pathOf(e ast.Expr) (string, bool) {
 			if pt, ok := t.Underlying().(*types.Pointer); ok {
 				t = pt.Elem()
 			}
-			if _, ok := t.Underlying().(*types.Struct); ok {
+			if _, ok := t.Underlying().(*types.Struct); ok && !isBuffer(t) {
 				return v.Name, true
 			}
 		}
@@ -415,6 +482,9 @@ func (f *fn) expr(e ast.Expr) string {
 		return f.expr(v.X)
 	case *ast.Ident:
 		if v.Name == "nil" {
+			if lt, ok := f.tr.leanType(tv.Type); ok && lt == "(List UInt8)" {
+				return "([] : List UInt8)"
+			}
 			return "none"
 		}
 		if v.Name == "true" || v.Name == "false" {
@@ -424,18 +494,23 @@ func (f *fn) expr(e ast.Expr) string {
 			_ = path
 			f.bad(e, "a struct used as a value")
 		}
+		if f.alias[v.Name] != "" {
+			return f.alias[v.Name]
+		}
 		if obj, ok := f.p.info.Uses[v].(*types.Var); ok {
+			if obj.Parent() == f.p.pkg.Scope() { // a package-level variable
+				if obj.Type().String() == "error" {
+					return fmt.Sprintf("(some (GoErr.named %q))", v.Name)
+				}
+				if a, ok := obj.Type().Underlying().(*types.Array); ok && v.Name == "framePadding" {
+					return fmt.Sprintf("(List.replicate %d (0 : UInt8))", a.Len())
+				}
+				f.bad(e, "package-level variable")
+			}
 			if obj == f.recv {
 				f.recvIsVal = true
-			} else if f.segment && !f.locals[v.Name] { // a variable defined before the segment is an input
-				lt, ok := f.tr.leanType(obj.Type())
-				if !ok {
-					f.bad(e, "input of unsupported type")
-				}
-				if _, seen := f.oracleSet[v.Name]; !seen && !f.isParam(obj) {
-					f.oracleSet[v.Name] = lt
-					f.oracleOrd = append(f.oracleOrd, v.Name)
-				}
+			} else {
+				f.noteInput(v, obj)
 			}
 			return leanIdent(v.Name)
 		}
@@ -478,9 +553,42 @@ func (f *fn) expr(e ast.Expr) string {
 		return f.binary(v)
 	case *ast.CallExpr:
 		return f.call(v)
+	case *ast.CompositeLit:
+		if f.lt(e) != "(List UInt8)" {
+			f.bad(e, "composite literal of this type")
+		}
+		if a, ok := f.typeOf(e).Underlying().(*types.Array); ok && len(v.Elts) == 0 {
+			return fmt.Sprintf("(List.replicate %d (0 : UInt8))", a.Len())
+		}
+		if _, ok := f.typeOf(e).Underlying().(*types.Array); ok {
+			f.bad(e, "array literal with elements")
+		}
+		var elts []string
+		for _, el := range v.Elts {
+			if _, ok := el.(*ast.KeyValueExpr); ok {
+				f.bad(e, "keyed literal")
+			}
+			elts = append(elts, f.expr(el))
+		}
+		return "[" + strings.Join(elts, ", ") + "]"
 	}
 	f.bad(e, "expression form")
 	return ""
+}
+
+// in a segment, a variable defined before the segment (a parameter of the function included) is an input
+func (f *fn) noteInput(v *ast.Ident, obj *types.Var) {
+	if !f.segment || f.locals[v.Name] || obj == f.recv || obj.IsField() {
+		return
+	}
+	lt, ok := f.tr.leanType(obj.Type())
+	if !ok {
+		f.bad(v, "input of unsupported type")
+	}
+	if _, seen := f.oracleSet[v.Name]; !seen {
+		f.oracleSet[v.Name] = lt
+		f.oracleOrd = append(f.oracleOrd, v.Name)
+	}
 }
 
 func (f *fn) isParam(obj *types.Var) bool {
@@ -643,6 +751,13 @@ func (f *fn) call(c *ast.CallExpr) string {
 			switch id.Name {
 			case "len":
 				return fmt.Sprintf("(Int.ofNat (%s).length)", f.expr(c.Args[0]))
+			case "make":
+				if f.lt(c) == "(List UInt8)" && len(c.Args) >= 2 {
+					if tv := f.p.info.Types[c.Args[1]]; tv.Value != nil && tv.Value.ExactString() == "0" {
+						return "([] : List UInt8)"
+					}
+					return fmt.Sprintf("(List.replicate (%s).toNat (0 : UInt8))", f.expr(c.Args[1]))
+				}
 			case "append":
 				if len(c.Args) == 2 && c.Ellipsis.IsValid() {
 					return fmt.Sprintf("(%s ++ %s)", f.expr(c.Args[0]), f.expr(c.Args[1]))
@@ -654,12 +769,48 @@ func (f *fn) call(c *ast.CallExpr) string {
 			f.bad(c, "builtin")
 		}
 	}
+	// bytes.Buffer values, the buffer pool, payloads
+	if sel, ok := c.Fun.(*ast.SelectorExpr); ok {
+		rt := f.typeOf(sel.X)
+		if rt != nil && isBuffer(rt) {
+			switch sel.Sel.Name {
+			case "Len":
+				return fmt.Sprintf("(Int.ofNat (%s).length)", f.expr(sel.X))
+			case "Bytes":
+				return f.expr(sel.X)
+			}
+			f.bad(c, "bytes.Buffer method in an expression")
+		}
+		if rt != nil && isPayload(rt) {
+			switch sel.Sel.Name {
+			case "Len":
+				return fmt.Sprintf("(Int.ofNat (%s).length)", f.expr(sel.X))
+			case "CheckEncoding": // Bytes / Buffers: the whole payload is checked (C16)
+				r := f.tr.translate("internal.CheckEncoding")
+				return fmt.Sprintf("(Trans.%s %s %s %s)", r.t.lean, f.expr(c.Args[0]), f.expr(c.Args[1]), f.expr(sel.X))
+			}
+			f.bad(c, "Payload method in an expression")
+		}
+	}
+	fname := text[:min(len(text), strings.Index(text+"(", "("))]
+	switch {
+	case fname == "binaryPool.Get":
+		return "([] : List UInt8)"
+	case fname == "bytes.NewBuffer":
+		return f.expr(c.Args[0])
+	case fname == "utf8.Valid":
+		return fmt.Sprintf("(goUtf8Valid %s)", f.expr(c.Args[0]))
+	case fname == "internal.SelectValue" || fname == "SelectValue" || strings.HasPrefix(fname, "internal.SelectValue["):
+		return fmt.Sprintf("(if %s then %s else %s)", f.expr(c.Args[0]), f.expr(c.Args[1]), f.expr(c.Args[2]))
+	}
 	// encoding/binary getters
 	switch text[:min(len(text), strings.Index(text+"(", "("))] {
 	case "binary.BigEndian.Uint16":
 		return fmt.Sprintf("(goU16BE %s)", f.expr(c.Args[0]))
 	case "binary.BigEndian.Uint64":
 		return fmt.Sprintf("(goU64BE %s)", f.expr(c.Args[0]))
+	case "binary.BigEndian.Uint32":
+		return fmt.Sprintf("(goU32BE %s)", f.expr(c.Args[0]))
 	}
 	// a translated function or method
 	var fo *types.Func
@@ -711,6 +862,14 @@ func (f *fn) call(c *ast.CallExpr) string {
 		}
 		args = append(args, leanIdent(full))
 	}
+	// the callee's own inputs (values of calls it leaves open, e.g. the PRNG) become inputs of the caller
+	for _, prm := range r.params[r.nDeclared+len(r.pathParams):] {
+		if _, seen := f.oracleSet[prm.name]; !seen {
+			f.oracleSet[prm.name] = prm.typ
+			f.oracleOrd = append(f.oracleOrd, prm.name)
+		}
+		args = append(args, prm.name)
+	}
 	if len(r.params) != len(args) {
 		f.bad(c, fmt.Sprintf("callee %s wants %d arguments (%v), call site provides %d", key, len(r.params), r.params, len(args)))
 	}
@@ -722,8 +881,34 @@ func (f *fn) call(c *ast.CallExpr) string {
 	if len(r.state) == 0 {
 		return app
 	}
+	if !r.hasRecvVal { // the callee assigns fields of its receiver: rebind the same fields of the receiver expression here
+		base, ok := f.pathOf(recvExpr)
+		if !ok {
+			f.bad(c, "callee assigns fields of a receiver that is not a field path here")
+		}
+		var names []string
+		for _, st := range r.state {
+			found := false
+			for _, pp := range r.pathParams {
+				if leanIdent(pp) == st {
+					full := base + strings.TrimPrefix(pp, r.recvName)
+					names = append(names, leanIdent(full))
+					f.state[leanIdent(full)] = true
+					found = true
+				}
+			}
+			if !found {
+				f.bad(c, "callee state "+st+" is not a field of its receiver")
+			}
+		}
+		if r.retType != "" {
+			f.bad(c, "callee with field state and results")
+		}
+		f.pre = append(f.pre, fmt.Sprintf("let %s := %s", tuple(names), app))
+		return "()"
+	}
 	// the callee returns its new receiver value first: hoist the call, rebind the receiver here
-	if len(r.state) != 1 || !r.hasRecvVal {
+	if len(r.state) != 1 {
 		f.bad(c, "callee threads state other than its receiver value")
 	}
 	target := f.lvalueName(recvExpr)
@@ -745,10 +930,18 @@ func (f *fn) lvalueName(e ast.Expr) string {
 	case *ast.StarExpr:
 		return f.lvalueName(v.X)
 	case *ast.Ident:
+		if a := f.alias[v.Name]; a != "" {
+			return a
+		}
 		if obj, ok := f.p.info.Uses[v].(*types.Var); ok {
 			if obj == f.recv {
 				f.recvIsVal = true
 				f.state[leanIdent(v.Name)] = true
+			} else {
+				f.noteInput(v, obj)
+				if f.isParam(obj) && isBuffer(obj.Type()) { // the caller sees what is done to a *bytes.Buffer parameter
+					f.state[leanIdent(v.Name)] = true
+				}
 			}
 			return leanIdent(v.Name)
 		}
@@ -808,7 +1001,7 @@ func (f *fn) assigned(n ast.Node) []string {
 		case *ast.StarExpr:
 			note(v.X)
 		case *ast.Ident:
-			if v.Name != "_" && !declared[v.Name] {
+			if v.Name != "_" && (!declared[v.Name] || f.alias[v.Name] != "") {
 				set[f.lvalueName(v)] = true
 			}
 		case *ast.SelectorExpr:
@@ -818,6 +1011,19 @@ func (f *fn) assigned(n ast.Node) []string {
 	ast.Inspect(n, func(x ast.Node) bool {
 		switch s := x.(type) {
 		case *ast.AssignStmt:
+			if len(s.Rhs) == 1 {
+				if c, ok := s.Rhs[0].(*ast.CallExpr); ok {
+					if sel, ok := c.Fun.(*ast.SelectorExpr); ok {
+						if rt := f.typeOf(sel.X); rt != nil && isBuffer(rt) && sel.Sel.Name == "Read" {
+							note(sel.X)
+							note(c.Args[0])
+						}
+						if rt := f.typeOf(sel.X); rt != nil && isPayload(rt) && sel.Sel.Name == "WriteTo" {
+							note(c.Args[0])
+						}
+					}
+				}
+			}
 			for _, l := range s.Lhs {
 				if s.Tok == token.DEFINE {
 					if id, ok := l.(*ast.Ident); ok {
@@ -841,10 +1047,16 @@ func (f *fn) assigned(n ast.Node) []string {
 			if c, ok := s.X.(*ast.CallExpr); ok {
 				text := strings.Join(strings.Fields(f.src(c.Fun)), "")
 				switch text {
-				case "copy", "binary.BigEndian.PutUint16", "binary.BigEndian.PutUint64", "binary.LittleEndian.PutUint32":
+				case "copy", "binary.BigEndian.PutUint16", "binary.BigEndian.PutUint64", "binary.LittleEndian.PutUint32", "internal.MaskXOR":
 					note(c.Args[0])
 				default:
 					if sel, ok := c.Fun.(*ast.SelectorExpr); ok {
+						if rt := f.typeOf(sel.X); rt != nil && isBuffer(rt) {
+							switch sel.Sel.Name {
+							case "Write", "Reset", "Next", "Truncate":
+								note(sel.X)
+							}
+						}
 						if s2, ok := f.p.info.Selections[sel]; ok && s2.Kind() == types.MethodVal {
 							if r, ok := f.tr.byFunc[funcKey(s2.Obj().(*types.Func))]; ok && len(f.tr.translate(r).state) > 0 {
 								note(sel.X)
@@ -873,10 +1085,8 @@ func tuple(xs []string) string {
 
 func (f *fn) ret(vals []string) string {
 	var all []string
-	if !f.segment {
-		for _, s := range f.stateOrder() {
-			all = append(all, s)
-		}
+	for _, s := range f.stateOrder() {
+		all = append(all, s)
 	}
 	all = append(all, vals...)
 	if len(all) == 0 {
@@ -899,17 +1109,75 @@ func (f *fn) block(list []ast.Stmt, k cont) string {
 	s, rest := list[0], list[1:]
 	next := func() string { return f.block(rest, k) }
 	var sb strings.Builder
+	for _, sk := range f.t.skip {
+		if strings.HasPrefix(f.stmtText(s), sk) {
+			return next()
+		}
+	}
+	// `*(*[]byte)(unsafe.Pointer(buf)) = p` (internal.BufferReset inlined): the buffer now holds exactly p
+	if as, ok := s.(*ast.AssignStmt); ok && len(as.Lhs) == 1 && strings.HasPrefix(strings.Join(strings.Fields(f.src(as.Lhs[0])), ""), "*(*[]byte)(unsafe.Pointer(") {
+		inner := as.Lhs[0].(*ast.StarExpr).X.(*ast.CallExpr).Args[0].(*ast.CallExpr).Args[0]
+		if isBuffer(f.typeOf(inner)) {
+			v := f.expr(as.Rhs[0])
+			f.flush(&sb)
+			fmt.Fprintf(&sb, "let %s := %s\n", f.lvalueName(inner), v)
+			return sb.String() + next()
+		}
+	}
+	// `msg := &T{F: e, …}` for a struct that is only handed to a free call: its fields are captured now
+	if as, ok := s.(*ast.AssignStmt); ok && as.Tok == token.DEFINE && len(as.Lhs) == 1 && len(as.Rhs) == 1 {
+		if lit := structLit(as.Rhs[0]); lit != nil {
+			name := as.Lhs[0].(*ast.Ident).Name
+			var fields []string
+			for _, el := range lit.Elts {
+				kv, ok := el.(*ast.KeyValueExpr)
+				if !ok {
+					f.bad(s, "positional struct literal")
+				}
+				fn := kv.Key.(*ast.Ident).Name
+				v := f.expr(kv.Value)
+				f.flush(&sb)
+				fmt.Fprintf(&sb, "let %s_%s := %s\n", leanIdent(name), fn, v)
+				fields = append(fields, fn)
+				f.structTy[leanIdent(name)+"_"+fn] = f.lt(kv.Value)
+			}
+			f.structs[name] = fields
+			f.locals[name] = true
+			return sb.String() + next()
+		}
+	}
 	switch st := s.(type) {
 	case *ast.EmptyStmt:
 		return next()
 	case *ast.BlockStmt:
 		return f.block(append(append([]ast.Stmt{}, st.List...), rest...), k)
 	case *ast.ReturnStmt:
+		if f.noReturn {
+			f.bad(s, "return of a value outside the fragment")
+		}
 		var vals []string
 		if len(st.Results) == 0 {
 			for _, n := range f.named {
 				vals = append(vals, leanIdent(n))
 			}
+		}
+		if len(f.t.free) > 0 {
+			if len(st.Results) == 1 {
+				if c, ok := st.Results[0].(*ast.CallExpr); ok {
+					if app, ok := f.freeCall(c); ok {
+						f.flush(&sb)
+						sb.WriteString(f.ret([]string{app}))
+						return sb.String()
+					}
+				}
+			}
+			var vs []string
+			for i, r := range st.Results {
+				vs = append(vs, f.resultValue(r, f.retTypes[i]))
+			}
+			f.flush(&sb)
+			sb.WriteString(f.ret([]string{"(ret " + tuple(vs) + ")"}))
+			return sb.String()
 		}
 		for i, r := range st.Results {
 			v := f.expr(r)
@@ -933,6 +1201,16 @@ func (f *fn) block(list []ast.Stmt, k cont) string {
 				f.locals[id.Name] = true
 				var val string
 				obj := f.p.info.Defs[id].(*types.Var)
+				if i < len(vs.Values) {
+					if c, ok := vs.Values[i].(*ast.CallExpr); ok {
+						if sel, ok := c.Fun.(*ast.SelectorExpr); ok && sel.Sel.Name == "Bytes" && f.typeOf(sel.X) != nil && isBuffer(f.typeOf(sel.X)) {
+							// `contents := buf.Bytes()` names the buffer's own storage: writes through it are writes to the buffer
+							// (sound while the buffer is not grown afterwards — the targets only Next() it)
+							f.alias[id.Name] = f.lvalueName(sel.X)
+							continue
+						}
+					}
+				}
 				lt, ok := f.tr.leanType(obj.Type())
 				if !ok {
 					f.bad(s, "variable of unsupported type")
@@ -951,6 +1229,12 @@ func (f *fn) block(list []ast.Stmt, k cont) string {
 		}
 		return sb.String() + next()
 	case *ast.AssignStmt:
+		if len(st.Lhs) == 2 && len(st.Rhs) == 1 {
+			if line, ok := f.tupleCall(st); ok {
+				f.flush(&sb)
+				return sb.String() + line + "\n" + next()
+			}
+		}
 		if len(st.Lhs) != len(st.Rhs) {
 			f.bad(s, "tuple assignment from one call")
 		}
@@ -959,7 +1243,11 @@ func (f *fn) block(list []ast.Stmt, k cont) string {
 			var val string
 			switch st.Tok {
 			case token.ASSIGN, token.DEFINE:
-				val = f.expr(st.Rhs[i])
+				if id, ok := st.Rhs[i].(*ast.Ident); ok && id.Name == "nil" && f.lt(st.Lhs[i]) == "(List UInt8)" {
+					val = "([] : List UInt8)" // a nil slice has no elements
+				} else {
+					val = f.expr(st.Rhs[i])
+				}
 			default: // op=
 				op := map[token.Token]token.Token{token.ADD_ASSIGN: token.ADD, token.SUB_ASSIGN: token.SUB, token.MUL_ASSIGN: token.MUL,
 					token.OR_ASSIGN: token.OR, token.AND_ASSIGN: token.AND, token.XOR_ASSIGN: token.XOR, token.SHL_ASSIGN: token.SHL, token.SHR_ASSIGN: token.SHR}[st.Tok]
@@ -983,10 +1271,10 @@ func (f *fn) block(list []ast.Stmt, k cont) string {
 			if id, ok := l.(*ast.Ident); ok && id.Name == "_" {
 				continue
 			}
-			if id, ok := l.(*ast.Ident); ok && st.Tok == token.DEFINE {
+			sb.WriteString(f.assignTo(l, vals[i]) + "\n")
+			if id, ok := l.(*ast.Ident); ok {
 				f.locals[id.Name] = true
 			}
-			sb.WriteString(f.assignTo(l, vals[i]) + "\n")
 		}
 		return sb.String() + next()
 	case *ast.IncDecStmt:
@@ -1015,6 +1303,12 @@ func (f *fn) block(list []ast.Stmt, k cont) string {
 			f.flush(&sb)
 			fmt.Fprintf(&sb, "let %s := goCopy %s %s %s\n", base, base, off, src)
 			return sb.String() + next()
+		case "internal.MaskXOR": // C18's subject; here by its specification (byte i becomes byte i XOR key[i mod 4])
+			base, off := f.sliceTarget(c.Args[0])
+			key := f.expr(c.Args[1])
+			f.flush(&sb)
+			fmt.Fprintf(&sb, "let %s := goCopy %s %s (goMaskXOR (%s.drop %s) %s)\n", base, base, off, base, off, key)
+			return sb.String() + next()
 		case "binary.BigEndian.PutUint16", "binary.BigEndian.PutUint64", "binary.LittleEndian.PutUint32":
 			base, off := f.sliceTarget(c.Args[0])
 			v := f.expr(c.Args[1])
@@ -1022,6 +1316,29 @@ func (f *fn) block(list []ast.Stmt, k cont) string {
 			fmt.Fprintf(&sb, "let %s := goCopy %s %s (%s %s)\n", base, base, off,
 				map[string]string{"binary.BigEndian.PutUint16": "goBytesU16BE", "binary.BigEndian.PutUint64": "goBytesU64BE", "binary.LittleEndian.PutUint32": "goBytesU32LE"}[text], v)
 			return sb.String() + next()
+		}
+		if sel, ok := c.Fun.(*ast.SelectorExpr); ok {
+			if rt := f.typeOf(sel.X); rt != nil && isBuffer(rt) {
+				b := f.lvalueName(sel.X)
+				var line string
+				switch sel.Sel.Name {
+				case "Write":
+					line = fmt.Sprintf("let %s := %s ++ %s", b, b, f.expr(c.Args[0]))
+				case "Reset":
+					line = fmt.Sprintf("let %s : List UInt8 := []", b)
+				case "Next":
+					line = fmt.Sprintf("let %s := %s.drop (%s).toNat", b, b, f.expr(c.Args[0]))
+				case "Truncate":
+					line = fmt.Sprintf("let %s := %s.take (%s).toNat", b, b, f.expr(c.Args[0]))
+				default:
+					f.bad(s, "bytes.Buffer method")
+				}
+				f.flush(&sb)
+				return sb.String() + line + "\n" + next()
+			}
+		}
+		if text == "binaryPool.Put" {
+			return next()
 		}
 		_ = f.call(c) // a state-threading method: the rebinding is in f.pre
 		if len(f.pre) == 0 {
@@ -1078,6 +1395,140 @@ func (f *fn) block(list []ast.Stmt, k cont) string {
 	return ""
 }
 
+// `a, b := recv.Method(…)` for a translated method, `_, _ = buf.Read(dst[lo:])`, `_, _ = payload.WriteTo(buf)`
+func (f *fn) tupleCall(st *ast.AssignStmt) (string, bool) {
+	c, ok := st.Rhs[0].(*ast.CallExpr)
+	if !ok {
+		return "", false
+	}
+	blank := func(e ast.Expr) bool { id, ok := e.(*ast.Ident); return ok && id.Name == "_" }
+	if sel, ok := c.Fun.(*ast.SelectorExpr); ok {
+		rt := f.typeOf(sel.X)
+		if rt != nil && isBuffer(rt) && sel.Sel.Name == "Read" && blank(st.Lhs[0]) && blank(st.Lhs[1]) {
+			b := f.lvalueName(sel.X)
+			dst, off := f.sliceTarget(c.Args[0])
+			f.tmp++
+			k := fmt.Sprintf("k%d", f.tmp)
+			return fmt.Sprintf("let %s := Nat.min (%s).length ((%s).length - %s)\nlet %s := goCopy %s %s (%s.take %s)\nlet %s := %s.drop %s", k, b, dst, off, dst, dst, off, b, k, b, b, k), true
+		}
+		if rt != nil && isPayload(rt) && sel.Sel.Name == "WriteTo" && blank(st.Lhs[0]) && blank(st.Lhs[1]) {
+			if at := f.typeOf(c.Args[0]); at != nil && isBuffer(at) {
+				b := f.lvalueName(c.Args[0])
+				return fmt.Sprintf("let %s := %s ++ %s", b, b, f.expr(sel.X)), true
+			}
+		}
+	}
+	// a translated function with two results (possibly threading its receiver)
+	saved := len(f.pre)
+	v := f.call(c)
+	var names []string
+	for _, l := range st.Lhs {
+		if blank(l) {
+			names = append(names, "_")
+			continue
+		}
+		if id, ok := l.(*ast.Ident); ok && st.Tok == token.DEFINE {
+			f.locals[id.Name] = true
+		}
+		names = append(names, f.lvalueName(l))
+	}
+	if len(f.pre) > saved { // the call was hoisted as `let (recv, rN) := …`: destructure rN
+		return fmt.Sprintf("let (%s) := %s", strings.Join(names, ", "), v), true
+	}
+	return fmt.Sprintf("let (%s) := %s", strings.Join(names, ", "), v), true
+}
+
+// resultValue: a returned expression, given the Lean type of the result position
+func (f *fn) resultValue(r ast.Expr, lt string) string {
+	if id, ok := r.(*ast.Ident); ok && id.Name == "nil" && lt == "(List UInt8)" {
+		return "([] : List UInt8)"
+	}
+	v := f.expr(r)
+	if lt == "(Option GoErr)" && isStatusCode(f.typeOf(r)) {
+		v = fmt.Sprintf("(some (GoErr.status %s))", v)
+	}
+	return v
+}
+
+func structLit(e ast.Expr) *ast.CompositeLit {
+	if u, ok := e.(*ast.UnaryExpr); ok && u.Op == token.AND {
+		e = u.X
+	}
+	if cl, ok := e.(*ast.CompositeLit); ok {
+		if _, isArr := cl.Type.(*ast.ArrayType); !isArr {
+			if id, ok := cl.Type.(*ast.Ident); ok && id.Name != "frameHeader" {
+				return cl
+			}
+		}
+	}
+	return nil
+}
+
+// freeCall: `callee(arg)` with callee listed in the target's free map -> the application of the function parameter
+func (f *fn) freeCall(c *ast.CallExpr) (string, bool) {
+	text := strings.Join(strings.Fields(f.src(c.Fun)), "")
+	fields, ok := f.t.free[text]
+	if !ok {
+		return "", false
+	}
+	pname := leanIdent(strings.ReplaceAll(text, ".", "_"))
+	var args, types_ []string
+	for _, a := range c.Args {
+		if lit := structLit(a); lit != nil {
+			vals := map[string]string{}
+			tys := map[string]string{}
+			for _, el := range lit.Elts {
+				kv := el.(*ast.KeyValueExpr)
+				vals[kv.Key.(*ast.Ident).Name] = f.expr(kv.Value)
+				tys[kv.Key.(*ast.Ident).Name] = f.lt(kv.Value)
+			}
+			for _, fn := range fields {
+				v, ok := vals[fn]
+				if !ok {
+					f.bad(c, "struct literal without field "+fn)
+				}
+				args = append(args, v)
+				types_ = append(types_, tys[fn])
+			}
+			continue
+		}
+		if id, ok := a.(*ast.Ident); ok && f.structs[id.Name] != nil {
+			for _, fn := range fields {
+				args = append(args, leanIdent(id.Name)+"_"+fn)
+				types_ = append(types_, f.structTy[leanIdent(id.Name)+"_"+fn])
+			}
+			continue
+		}
+		if path, ok := f.pathOf(a); ok { // a struct passed by value: its fields, in declaration order
+			t := f.typeOf(a)
+			if pt, ok := t.Underlying().(*types.Pointer); ok {
+				t = pt.Elem()
+			}
+			st := t.Underlying().(*types.Struct)
+			for i := 0; i < st.NumFields(); i++ {
+				fld := st.Field(i)
+				args = append(args, f.usePath(path+"."+fld.Name(), fld.Type(), a))
+				lt, _ := f.tr.leanType(fld.Type())
+				types_ = append(types_, lt)
+			}
+			continue
+		}
+		args = append(args, f.expr(a))
+		types_ = append(types_, f.lt(a))
+	}
+	if old, seen := f.freeSig[pname]; seen {
+		for i := range old { // keep the concrete types seen at any call site
+			if i < len(types_) && old[i] == "_" {
+				old[i] = types_[i]
+			}
+		}
+	} else {
+		f.freeSig[pname] = types_
+		f.freeOrd = append(f.freeOrd, pname)
+	}
+	return "(" + pname + " " + strings.Join(args, " ") + ")", true
+}
+
 func zeroOf(t types.Type, lt string) string {
 	switch lt {
 	case "Bool":
@@ -1124,9 +1575,56 @@ func (f *fn) assignTo(l ast.Expr, val string) string {
 	return fmt.Sprintf("let %s := %s", name, val)
 }
 
+// readN: `if err := internal.ReadN(r, dst[lo:hi]); err != nil { <body> }` with `r` an io.Reader: the reader is the list of
+// bytes it will deliver; ReadN (io.ReadFull) either fills dst completely and consumes that many bytes, or fails
+// (GoErr.io) — how many bytes a failed ReadFull consumed is not observable here because every target returns at once.
+func (f *fn) readN(st *ast.IfStmt, next cont) (string, bool) {
+	as, ok := st.Init.(*ast.AssignStmt)
+	if !ok || len(as.Lhs) != 1 || len(as.Rhs) != 1 || as.Tok != token.DEFINE {
+		return "", false
+	}
+	c, ok := as.Rhs[0].(*ast.CallExpr)
+	if !ok || strings.Join(strings.Fields(f.src(c.Fun)), "") != "internal.ReadN" {
+		return "", false
+	}
+	errName := as.Lhs[0].(*ast.Ident).Name
+	if strings.Join(strings.Fields(f.src(st.Cond)), "") != errName+"!=nil" || st.Else != nil {
+		f.bad(st, "ReadN used in an unknown pattern")
+	}
+	rd := f.lvalueName(c.Args[0])
+	f.state[rd] = true
+	f.streams[rd] = true
+	var dst, off, n string
+	switch d := c.Args[1].(type) {
+	case *ast.SliceExpr:
+		dst, off = f.sliceTarget(d)
+		if d.High == nil {
+			f.bad(st, "ReadN into an open slice")
+		}
+		lo := "(0 : Int)"
+		if d.Low != nil {
+			lo = f.expr(d.Low)
+		}
+		n = fmt.Sprintf("(%s - %s).toNat", f.expr(d.High), lo)
+	default:
+		dst, off = f.lvalueName(c.Args[1]), "0"
+		n = fmt.Sprintf("(%s).length", dst)
+	}
+	f.locals[errName] = true
+	var sb strings.Builder
+	f.flush(&sb)
+	fail := f.block(st.Body.List, next)
+	fmt.Fprintf(&sb, "match goReadN %s %s with\n| none =>\n  let %s : Option GoErr := some GoErr.io\n%s\n| some (rd', %s) =>\n  let %s := goCopy %s %s rd'\n%s",
+		rd, n, leanIdent(errName), indent(fail), rd, dst, dst, off, indent(next()))
+	return sb.String(), true
+}
+
 func (f *fn) ifStmt(st *ast.IfStmt, next cont) string {
 	var sb strings.Builder
 	if st.Init != nil {
+		if s, ok := f.readN(st, next); ok {
+			return s
+		}
 		// `if err := g(); err != nil { … }`: the init is an ordinary statement in front (names are not reused in the targets)
 		inner := *st
 		inner.Init = nil
@@ -1144,6 +1642,10 @@ func (f *fn) ifStmt(st *ast.IfStmt, next cont) string {
 	}
 	vars := f.assigned(st)
 	if len(vars) == 0 {
+		// nothing the translation tracks is assigned: still translate the branches, so that a statement outside the
+		// fragment is reported instead of being dropped
+		_ = f.block(st.Body.List, func() string { return "()" })
+		_ = f.block(elseList, func() string { return "()" })
 		return sb.String() + next()
 	}
 	t := tuple(vars)
@@ -1231,7 +1733,7 @@ func (tr *translator) translate(key string) *result {
 	if !ok {
 		fail("function %s.%s not found", t.pkg, t.fn)
 	}
-	f := &fn{tr: tr, p: p, decl: decl, t: t, pathSet: map[string]string{}, oracleSet: map[string]string{}, state: map[string]bool{}, locals: map[string]bool{}}
+	f := &fn{tr: tr, p: p, decl: decl, t: t, pathSet: map[string]string{}, oracleSet: map[string]string{}, state: map[string]bool{}, locals: map[string]bool{}, alias: map[string]string{}, streams: map[string]bool{}, structs: map[string][]string{}, freeSig: map[string][]string{}, structTy: map[string]string{}}
 	if decl.Recv != nil && len(decl.Recv.List) == 1 && len(decl.Recv.List[0].Names) == 1 {
 		f.recv, _ = p.info.Defs[decl.Recv.List[0].Names[0]].(*types.Var)
 	}
@@ -1240,7 +1742,11 @@ func (tr *translator) translate(key string) *result {
 		v := sig.Results().At(i)
 		lt, ok := tr.leanType(v.Type())
 		if !ok {
-			fail("%s: result of unsupported type %s", key, v.Type())
+			if t.from == "" {
+				fail("%s: result of unsupported type %s", key, v.Type())
+			}
+			lt = "Unit" // a segment of a function whose results are outside the fragment: it must not contain a return
+			f.noReturn = true
 		}
 		f.retTypes = append(f.retTypes, lt)
 		if v.Name() != "" {
@@ -1293,7 +1799,7 @@ func (tr *translator) translate(key string) *result {
 			}
 		}
 	}
-	if decl.Type.Params != nil {
+	if decl.Type.Params != nil && !f.segment {
 		for _, fl := range decl.Type.Params.List {
 			for _, id := range fl.Names {
 				f.locals[id.Name] = true
@@ -1311,7 +1817,7 @@ func (tr *translator) translate(key string) *result {
 	// two passes: the first discovers which variables are threaded state (they must be known when a `return` is emitted)
 	end := func() string {
 		if f.segment {
-			var vals []string
+			vals := append([]string{}, f.stateOrder()...)
 			for _, v := range t.liveOut {
 				vals = append(vals, leanIdent(v))
 			}
@@ -1354,6 +1860,13 @@ func (tr *translator) translate(key string) *result {
 				obj := p.info.Defs[id].(*types.Var)
 				lt, ok := tr.leanType(obj.Type())
 				if !ok {
+					bt := obj.Type()
+					if pt, ok := bt.Underlying().(*types.Pointer); ok {
+						bt = pt.Elem()
+					}
+					if _, isStruct := bt.Underlying().(*types.Struct); isStruct {
+						continue // a struct parameter: the fields that are read are parameters (field paths)
+					}
 					fail("%s: parameter %s of unsupported type %s", key, id.Name, obj.Type())
 				}
 				r.params = append(r.params, param{leanIdent(id.Name), lt})
@@ -1368,8 +1881,17 @@ func (tr *translator) translate(key string) *result {
 	for _, o := range f.oracleOrd {
 		r.params = append(r.params, param{leanIdent(o), f.oracleSet[o]})
 	}
-	if f.segment && len(f.state) > 0 {
-		fail("%s: a segment that assigns fields is not supported", key)
+	// free calls: polymorphic result
+	if len(t.free) > 0 {
+		orig := strings.Join(f.retTypes, " × ")
+		var pre []param
+		pre = append(pre, param{"ret", "(" + orig + " → R)"})
+		for _, fn := range f.freeOrd {
+			pre = append(pre, param{fn, "(" + strings.Join(append(append([]string{}, f.freeSig[fn]...), "R"), " → ") + ")"})
+		}
+		r.params = append(pre, r.params...)
+		f.retTypes = []string{"R"}
+		r.poly = true
 	}
 	// result type
 	var parts []string
@@ -1391,6 +1913,13 @@ func (tr *translator) translate(key string) *result {
 	}
 	if f.segment {
 		var lo []string
+		for _, s := range r.state {
+			for _, prm := range r.params {
+				if prm.name == s {
+					lo = append(lo, prm.typ)
+				}
+			}
+		}
 		for _, v := range t.liveOut {
 			lo = append(lo, f.liveType(v, stmts))
 		}
@@ -1466,6 +1995,9 @@ func main() {
 			doc += "; " + r.t.doc
 		}
 		fmt.Fprintf(&sb, "/-- %s -/\ndef %s", doc, r.t.lean)
+		if r.poly {
+			sb.WriteString(" {R : Type}")
+		}
 		for _, prm := range r.params {
 			fmt.Fprintf(&sb, " (%s : %s)", prm.name, prm.typ)
 		}
